@@ -21,7 +21,7 @@ open CC
 section dedupe
 variable {K : Type}
 
-theorem dedupe_sublist (key : K → Int) (l : List (K × K)) (seen : List Int) : (dedupe key l seen).Sublist l := by
+theorem dedupe_sublist (key : K → Int) (l : List (K × K)) (seen : List (Int × Int)) : (dedupe key l seen).Sublist l := by
   induction l generalizing seen with
   | nil => simp [dedupe]
   | cons p l ih =>
@@ -30,28 +30,28 @@ theorem dedupe_sublist (key : K → Int) (l : List (K × K)) (seen : List Int) :
     · exact (ih seen).cons p
     · exact (ih _).cons_cons p
 
-theorem dedupe_mem (key : K → Int) (l : List (K × K)) (seen : List Int) (p : K × K) (h : p ∈ dedupe key l seen) : p ∈ l :=
+theorem dedupe_mem (key : K → Int) (l : List (K × K)) (seen : List (Int × Int)) (p : K × K) (h : p ∈ dedupe key l seen) : p ∈ l :=
   (dedupe_sublist key l seen).subset h
 
 /-- **the first report of every key survives**: every report has a surviving report with the same key — unless its key
     had been seen before -/
-theorem dedupe_key_survives (key : K → Int) (l : List (K × K)) (seen : List Int) (p : K × K) (hp : p ∈ l)
-    (hs : key p.1 ∉ seen) : ∃ p' ∈ dedupe key l seen, key p'.1 = key p.1 := by
+theorem dedupe_key_survives (key : K → Int) (l : List (K × K)) (seen : List (Int × Int)) (p : K × K) (hp : p ∈ l)
+    (hs : pkey key p ∉ seen) : ∃ p' ∈ dedupe key l seen, pkey key p' = pkey key p := by
   induction l generalizing seen with
   | nil => simp at hp
   | cons q l ih =>
     unfold dedupe
-    by_cases hq : key q.1 ∈ seen
+    by_cases hq : pkey key q ∈ seen
     · rw [if_pos hq]
       rcases List.mem_cons.mp hp with rfl | hp'
       · exact absurd hq hs
       · exact ih seen hp' hs
     · rw [if_neg hq]
-      by_cases hk : key q.1 = key p.1
+      by_cases hk : pkey key q = pkey key p
       · exact ⟨q, List.mem_cons_self, hk⟩
       · rcases List.mem_cons.mp hp with rfl | hp'
         · exact absurd rfl hk
-        · obtain ⟨p', hp'', hk'⟩ := ih (key q.1 :: seen) hp' (by
+        · obtain ⟨p', hp'', hk'⟩ := ih (pkey key q :: seen) hp' (by
             intro hmem
             rcases List.mem_cons.mp hmem with h | h
             · exact hk h.symm
@@ -59,8 +59,8 @@ theorem dedupe_key_survives (key : K → Int) (l : List (K × K)) (seen : List I
           exact ⟨p', List.mem_cons_of_mem _ hp'', hk'⟩
 
 /-- the surviving reports have pairwise distinct keys, none of them seen before -/
-theorem dedupe_keys_fresh (key : K → Int) (l : List (K × K)) (seen : List Int) :
-    ∀ p ∈ dedupe key l seen, key p.1 ∉ seen := by
+theorem dedupe_keys_fresh (key : K → Int) (l : List (K × K)) (seen : List (Int × Int)) :
+    ∀ p ∈ dedupe key l seen, pkey key p ∉ seen := by
   induction l generalizing seen with
   | nil => simp [dedupe]
   | cons q l ih =>
@@ -73,8 +73,8 @@ theorem dedupe_keys_fresh (key : K → Int) (l : List (K × K)) (seen : List Int
       · exact hq
       · exact fun h => ih _ p hp' (List.mem_cons_of_mem _ h)
 
-theorem dedupe_keys_nodup (key : K → Int) (l : List (K × K)) (seen : List Int) :
-    ((dedupe key l seen).map fun p => key p.1).Nodup := by
+theorem dedupe_keys_nodup (key : K → Int) (l : List (K × K)) (seen : List (Int × Int)) :
+    ((dedupe key l seen).map fun p => pkey key p).Nodup := by
   induction l generalizing seen with
   | nil => simp [dedupe]
   | cons q l ih =>
@@ -86,7 +86,7 @@ theorem dedupe_keys_nodup (key : K → Int) (l : List (K × K)) (seen : List Int
       intro hmem
       rw [List.mem_map] at hmem
       obtain ⟨p, hp, hk⟩ := hmem
-      exact dedupe_keys_fresh key l (key q.1 :: seen) p hp (by rw [hk]; exact List.mem_cons_self)
+      exact dedupe_keys_fresh key l (pkey key q :: seen) p hp (by rw [hk]; exact List.mem_cons_self)
 end dedupe
 
 /-! ### buckets: reports 0.02 apart never share a two-decimal key -/
@@ -163,13 +163,13 @@ theorem near_right (r : K × K) (s t' : K) (h : Near ((r.1 + r.2) / 2, r.2) (2 *
 
 
 /-- **completeness**: if every box encloses its piece, then for every common point a(s) = b(u) of the two pieces, whenever
-    the recursion ends, the output contains a report in the same key bucket as a report (t', u') lying within half a terminal
+    the recursion ends, the output contains a report in the same key bucket (of both parameters) as a report (t', u') lying within half a terminal
     range of the true parameters in BOTH coordinates — the duplicate filter at every level included.  (Together with
-    `key_far`: the report of a crossing is only ever replaced by a report whose first parameter is within 0.01.) -/
+    `key_close`: the report of a crossing is only ever replaced by a report both of whose parameters are within 0.01.) -/
 theorem cc_complete (E : Env K Cv Pt Bx) (hE : EnvOK E) :
     ∀ fuel a ra b rb out s u, ra.1 ≤ ra.2 → rb.1 ≤ rb.2 → 0 ≤ s → s ≤ 1 → 0 ≤ u → u ≤ 1 →
       E.pt a s = E.pt b u → cc E fuel a ra b rb = some out →
-      ∃ p ∈ out, ∃ q : K × K, Near ra s q.1 ∧ Near rb u q.2 ∧ E.key p.1 = E.key q.1 := by
+      ∃ p ∈ out, ∃ q : K × K, Near ra s q.1 ∧ Near rb u q.2 ∧ pkey E.key p = pkey E.key q := by
   intro fuel
   induction fuel with
   | zero => intro a ra b rb out s u _ _ _ _ _ _ _ h; simp [cc] at h
@@ -185,7 +185,7 @@ theorem cc_complete (E : Env K Cv Pt Bx) (hE : EnvOK E) :
     · have key : ∀ (x y : Cv) (rx ry : K × K) (s' u' : K), rx.1 ≤ rx.2 → ry.1 ≤ ry.2 →
           0 ≤ s' → s' ≤ 1 → 0 ≤ u' → u' ≤ 1 → E.pt x s' = E.pt y u' →
           ∀ r, (if E.overlap (E.box x) (E.box y) then cc E fuel x rx y ry else some []) = some r →
-          ∃ p ∈ r, ∃ q : K × K, Near rx s' q.1 ∧ Near ry u' q.2 ∧ E.key p.1 = E.key q.1 := by
+          ∃ p ∈ r, ∃ q : K × K, Near rx s' q.1 ∧ Near ry u' q.2 ∧ pkey E.key p = pkey E.key q := by
         intro x y rx ry s' u' h1 h2 h3 h4 h5 h6 h7 r hr
         have hov' : E.overlap (E.box x) (E.box y) = true :=
           hE.ov (E.pt x s') _ _ (hE.encl x s' h3 h4) (by rw [h7]; exact hE.encl y u' h5 h6)
@@ -214,8 +214,8 @@ theorem cc_complete (E : Env K Cv Pt Bx) (hE : EnvOK E) :
       simp only [bind, Option.bind, pure, Option.some.injEq] at h
       subst h
       -- a report found in one of the four sub-results survives the filter up to its key
-      have lift : ∀ (p : K × K), p ∈ r11 ++ r12 ++ r21 ++ r22 → ∀ q : K × K, E.key p.1 = E.key q.1 →
-          ∃ p' ∈ dedupe E.key (r11 ++ r12 ++ r21 ++ r22) [], E.key p'.1 = E.key q.1 := by
+      have lift : ∀ (p : K × K), p ∈ r11 ++ r12 ++ r21 ++ r22 → ∀ q : K × K, pkey E.key p = pkey E.key q →
+          ∃ p' ∈ dedupe E.key (r11 ++ r12 ++ r21 ++ r22) [], pkey E.key p' = pkey E.key q := by
         intro p hp q hk
         obtain ⟨p', hp', hk'⟩ := dedupe_key_survives E.key _ [] p hp (by simp)
         exact ⟨p', hp', hk'.trans hk⟩
@@ -366,11 +366,23 @@ theorem cc_complete_real (sqrt : K → K) (key : K → Int)
     (hencl : ∀ (c : Seg K) (s : K), 0 ≤ s → s ≤ 1 → inBoxOpt (c.eval s) (bounds sqrt c))
     (fuel : Nat) (a b : Seg K) (out : List (K × K)) (s u : K) (hs0 : 0 ≤ s) (hs1 : s ≤ 1) (hu0 : 0 ≤ u) (hu1 : u ≤ 1)
     (hpt : a.eval s = b.eval u) (h : cc (segEnv sqrt key) fuel a (0, 1) b (0, 1) = some out) :
-    ∃ p ∈ out, ∃ q : K × K, Near (0, 1) s q.1 ∧ Near (0, 1) u q.2 ∧ key p.1 = key q.1 := by
+    ∃ p ∈ out, ∃ q : K × K, Near (0, 1) s q.1 ∧ Near (0, 1) u q.2 ∧ key p.1 = key q.1 ∧ key p.2 = key q.2 := by
   have hE : EnvOK (segEnv sqrt key) :=
     { split_l := segEnv_split_l sqrt key, split_r := segEnv_split_r sqrt key,
       encl := fun c s h0 h1 => hencl c s h0 h1, ov := fun p b1 b2 h1 h2 => segEnv_ov p b1 b2 h1 h2 }
-  exact cc_complete (segEnv sqrt key) hE fuel a (0, 1) b (0, 1) out s u (by norm_num) (by norm_num) hs0 hs1 hu0 hu1 hpt h
+  obtain ⟨p, hp, q, n1, n2, hk⟩ := cc_complete (segEnv sqrt key) hE fuel a (0, 1) b (0, 1) out s u (by norm_num) (by norm_num) hs0 hs1 hu0 hu1 hpt h
+  exact ⟨p, hp, q, n1, n2, congrArg Prod.fst hk, congrArg Prod.snd hk⟩
+
+/-- **what a report of a crossing can be replaced by**: with a key that rounds 100·t to a nearest integer, the surviving report is
+    within 0.01 of a report lying within half a terminal range of the crossing — in BOTH parameters (the pinned filter, keyed on the
+    first parameter only, guaranteed this for the first parameter alone and dropped crossings of a second branch: F25) -/
+theorem cc_complete_close (sqrt : K → K) (key : K → Int) (hk : ∀ t, |100 * t - (key t : K)| ≤ 1 / 2)
+    (hencl : ∀ (c : Seg K) (s : K), 0 ≤ s → s ≤ 1 → inBoxOpt (c.eval s) (bounds sqrt c))
+    (fuel : Nat) (a b : Seg K) (out : List (K × K)) (s u : K) (hs0 : 0 ≤ s) (hs1 : s ≤ 1) (hu0 : 0 ≤ u) (hu1 : u ≤ 1)
+    (hpt : a.eval s = b.eval u) (h : cc (segEnv sqrt key) fuel a (0, 1) b (0, 1) = some out) :
+    ∃ p ∈ out, ∃ q : K × K, Near (0, 1) s q.1 ∧ Near (0, 1) u q.2 ∧ |p.1 - q.1| ≤ 1 / 100 ∧ |p.2 - q.2| ≤ 1 / 100 := by
+  obtain ⟨p, hp, q, n1, n2, k1, k2⟩ := cc_complete_real sqrt key hencl fuel a b out s u hs0 hs1 hu0 hu1 hpt h
+  exact ⟨p, hp, q, n1, n2, key_close key hk _ _ k1, key_close key hk _ _ k2⟩
 end real
 
 /-! ### the stop rule admits phantoms (K3) -/
@@ -391,5 +403,25 @@ theorem phantom_counterexample :
     ∧ (Seg.cubic (⟨0, 0⟩ : Pt ℚ) ⟨10, 0⟩ ⟨20, 0⟩ ⟨30, 0⟩).eval (1 / 3) = (Seg.quad (⟨10, -10⟩ : Pt ℚ) ⟨10, 0⟩ ⟨10, 10⟩).eval (1 / 2) := by
   decide +kernel
 end phantom
+
+/-! ### the pinned duplicate filter drops a second crossing (F25) -/
+
+section pinned_filter
+
+/-- the pinned filter: one report per bucket of the FIRST parameter -/
+def dedupePinned {K : Type} (key : K → Int) : List (K × K) → List Int → List (K × K)
+  | [], _ => []
+  | p :: rest, seen => if key p.1 ∈ seen then dedupePinned key rest seen else p :: dedupePinned key rest (key p.1 :: seen)
+
+/-- **F25**: a straight vertical cubic crossing the two branches of a narrow hairpin at t = 0.50635 (other curve: 0.11963) and
+    t = 0.51416 (other curve: 0.88037): both first parameters print as 0.51, so the pinned filter drops the second crossing, 1.5 units
+    (0.73 % of the extent) from the first; keyed on both parameters the filter keeps both -/
+theorem pinned_filter_counterexample :
+    dedupePinned (fun t : ℚ => Rat.floor (100 * t + 1 / 2)) [(50635 / 100000, 11963 / 100000), (51416 / 100000, 88037 / 100000)] []
+      = [(50635 / 100000, 11963 / 100000)]
+    ∧ dedupe (fun t : ℚ => Rat.floor (100 * t + 1 / 2)) [(50635 / 100000, 11963 / 100000), (51416 / 100000, 88037 / 100000)] []
+      = [(50635 / 100000, 11963 / 100000), (51416 / 100000, 88037 / 100000)] := by
+  decide +kernel
+end pinned_filter
 
 end C06
